@@ -58,20 +58,28 @@ IMPORTS = [
     'from .sib import thing', 'from .. import up', 'from ...far import away as aw', 'from .... import *', 'from dep import nothere', 'from zope.interface import Interface, implementer, Attribute, classImplements, moduleProvides',
     'from zope import interface, schema', 'import zope.interface', 'import attr', 'import attrs', 'from attr import s, ib', 'from twisted.python.deprecate import deprecated, deprecatedProperty, deprecatedModuleAttribute',
     'from twisted.python import deprecate', 'from incremental import Version', 'from typing import *', 'from typing import TypeVar, Final, ClassVar, overload, Union, TYPE_CHECKING, TypeAlias, Literal', 'import typing', 'import typing as t',
-    'from __future__ import annotations', 'import functools, abc', 'from functools import cached_property', 'from dataclasses import dataclass', 'import dep.sub.mod', 'from mod import C as Alias', 'from dep import Base as Base',
+    'from __future__ import annotations', 'import functools, abc', 'from functools import cached_property', 'from dataclasses import dataclass', 'import dep.sub.mod', 'import pkg', 'import pkg.dep', 'import pkg.sub.mod', 'from . import dep, sib', 'from pkg import dep, sib, mod', 'import pkg.sib as sib', 'from mod import C as Alias', 'from dep import Base as Base',
 ]
 
 SPECIAL_ASSIGN = [
     "__all__ = ['C', 'f', 'x']", "__all__ = ('C',)", "__all__ = ['C'] + ['f']", "__all__ += ['g']", "__all__ = [{[]}]", "__all__ = [1, None]", "__all__ = 'C'", "__all__ = ['nothere', 'C', 'C']", "__all__ = dep.__all__ + ['x']",
     "__all__: list = ['C']", "__all__ = []", "__all__.append('z')", "__all__.extend(['q'])", "__all__ = x = ['C']", "__all__ = ['Base']", "__all__ = ['X', 'Base']",
-    "__docformat__ = 'restructuredtext'", "__docformat__ = 'epytext en'", "__docformat__ = {[]}", "__docformat__ = 1", "__docformat__ = 'google'", "__docformat__ = 'numpy'", "__docformat__ = ''", "__docformat__ = 'nonsense'", "__docformat__ = 'plaintext'", "__docformat__: str = 'epytext'",
-    "__doc__ = 'assigned doc'", "__doc__ = {[]}", "__doc__ = x", "__doc__ += 'more'", "C.__doc__ = 'cdoc'", "C.__doc__ = {[]}", "C.f.__doc__ = 'x'", "nothere.__doc__ = 'x'", "f.__doc__ = '''d'''", "C.__doc__ = D.__doc__ = 'two'",
+    "__docformat__ = 'restructuredtext'", "__docformat__ = 'epytext en'", "__docformat__ = {[]}", "__docformat__ = 1", "__docformat__ = 'google'", "__docformat__ = 'numpy'", "__docformat__ = ''", "__docformat__ = 'nonsense'", "__docformat__ = 'plaintext'", "__docformat__: str = 'epytext'", "__docformat__ = '_types'", "__docformat__ = '_napoleon'", "__docformat__ = '_pyval_repr'", "__docformat__ = '__init__'", "__docformat__ = 'doctest'",
+    "__docformat__ = 'epytext.x'", "__docformat__ = '.'", "__docformat__ = '..epytext'", "__docformat__ = 'a/b'", "__docformat__ = ' '", "__docformat__ = 'EPYTEXT'", "__docformat__ = 'restructuredtext en extra'",
+    "__doc__ = 'assigned doc'", "__doc__ = {[]}", "__doc__ = x", "__doc__ += 'more'", "C.__doc__ = 'cdoc'", "C.__doc__ = {[]}", "C.f.__doc__ = 'x'", "nothere.__doc__ = 'x'", "f.__doc__ = '''d'''", "C.__doc__ = D.__doc__ = 'two'", "dep.__doc__ = 'from outside'", "pkg.dep.__doc__ = 'from outside'", "pkg.sib.__doc__ = 'x'", "pkg.mod.__doc__ = 'x'", "pkg.sub.mod.__doc__ = 'x'", "sib.__doc__ = 'x'",
+    "dep.Base.__doc__ = 'x'", "pkg.dep.Base.m.__doc__ = 'x'", "pkg.__doc__ = 'x'", "mod.__doc__ = 'self'",
     "classImplements(C, I)", "classImplements(C)", "classImplements(*a)", "classImplements(nothere, I)", "moduleProvides(I)", "moduleProvides()", "interface.classImplements(C, a.b.I, *x)", "deprecatedModuleAttribute(Version('p', 1, 2, 3), 'msg', __name__, 'x')",
     "deprecatedModuleAttribute(Version('p', 1, 2, 3), 'msg', 'mod', 'x')", "deprecatedModuleAttribute(*a)", "deprecatedModuleAttribute()", "f = staticmethod(f)", "f = classmethod(f)", "g = property(g)", "f = staticmethod(nothere)", "f = staticmethod()", "C = D", "B = dep.Base", "al = mod.C", "x = x",
     "T = TypeVar('T')", "T = typing.TypeVar('T', bound='C')", "T = TypeVar()", "T = TypeVar(*a)", "T = TypeVar(name='T')", "Al = Union[int, 'C']", "Al: TypeAlias = 'int'", "Al: typing.TypeAlias = int | None", "K: Final = 3", "K: Final[int] = 3", "K: Final[1:2] = 3", "K: typing.Final = (1,)", "UPPER = 1", "UPPER = UPPER + 1",
     "x: 'not valid (' = 1", "x: int", "x: ClassVar[int] = 2", "a, b = 1, 2", "(a, (b, c)) = 1, (2, 3)", "*a, b = [1, 2]", "a = b = c = 3", "x += 1", "nothere += 1", "obj.attr = 1", "d['k'] = 1", "(y := 3)", "self.iv = 1", "self.iv: int = 1", "self.a.b = 2", "cls.cv = 3", "x = 1 # type: int", "x = [] # type: List[(]",
     "global gx", "del x", "del x, y.z", "pass", "...", "raise ValueError('v')", "assert x, 'm'", "print(x)", "x", "'bare string'", "f'fstring {x}'", "b'bytes'", "1", "return x", "yield x", "await y", "nonlocal nl", "import_all = '*'", "lambda: (yield)",
 ]
+
+
+# statements that mean something special in a class body, about the names the function generator uses (f, g, x, m, _p, C)
+CLASS_SPECIAL = ['f = staticmethod(f)', 'f = classmethod(f)', 'g = staticmethod(g)', 'm = classmethod(m)', 'x = staticmethod(x)', 'g = property(g)', 'x = property(f, g)', 'f = staticmethod(g)', 'C = staticmethod(C)',
+                 '_p = classmethod(_p)', "__doc__ = 'assigned in the class body'", "__slots__ = ('a', 'b')", '__slots__ = "a"', "__all__ = ['f']", '__init__ = f', 'f = f', 'm = f', 'iv: int', 'f: int = 1', 'del f',
+                 '__class_getitem__ = classmethod(f)', 'x = x.setter(f)', "f.__doc__ = 'x'", 'f = deprecated(Version("p", 1, 2, 3))(f)', 'implements(I)', 'classProvides(I)', '__metaclass__ = M']
 
 
 def _ind(lines: List[str], n: int = 1) -> List[str]:
@@ -136,8 +144,20 @@ def _stmt(draw: Any, depth: int, ctx: str) -> List[str]:
     kinds = ['special', 'special', 'assign', 'assign', 'import', 'func', 'func', 'class', 'ctrl', 'attrdoc', 'deco_class']
     if depth >= 3:
         kinds = ['special', 'assign', 'import', 'attrdoc']
+    if ctx == 'class':
+        kinds = kinds + ['oldschool']
     k = draw(st.sampled_from(kinds))
+    if k == 'oldschool':
+        # a method that is wrapped after its definition, once or several times, possibly on top of a decorator
+        name = draw(st.sampled_from(['f', 'g', 'm', 'x']))
+        deco = draw(st.sampled_from([[], [], ['@staticmethod'], ['@classmethod'], ['@property'], ['@overload']]))
+        out = deco + ['def %s(%s):' % (name, draw(_params(True))), '    pass']
+        for _ in range(draw(st.integers(1, 3))):
+            out.append('%s = %s(%s)' % (name, draw(st.sampled_from(['staticmethod', 'classmethod', 'staticmethod', 'property'])), name))
+        return out
     if k == 'special':
+        if ctx == 'class' and draw(st.booleans()):
+            return [draw(st.sampled_from(CLASS_SPECIAL))]
         return [draw(st.sampled_from(SPECIAL_ASSIGN))]
     if k == 'import':
         return [draw(st.sampled_from(IMPORTS))]
@@ -173,8 +193,8 @@ def _stmt(draw: Any, depth: int, ctx: str) -> List[str]:
         body = []
         if draw(st.booleans()):
             body += _docstring(draw(st.sampled_from(DOCS)), draw(st.integers(0, 9)))
-        for _ in range(draw(st.integers(0, 4))):
-            body += draw(_stmt(depth + 1, 'class'))
+        stmts = [draw(_stmt(depth + 1, 'class')) for _ in range(draw(st.integers(0, 4)))]
+        body += _with_repeats(draw, stmts)
         if not body:
             body = ['pass']
         return decos + [head] + _ind(body)
@@ -207,6 +227,17 @@ def _stmt(draw: Any, depth: int, ctx: str) -> List[str]:
     return ['match x:'] + _ind(['case [a, *rest] if a:'] + _ind(inner) + ['case {"k": v} | C(y=1):'] + _ind(other) + ['case _:'] + _ind(['pass']))
 
 
+def _with_repeats(draw: Any, stmts: List[List[str]]) -> List[str]:
+    """The statements in order; now and then one of them is written a second time further down (a redefinition, a second
+    wrapping in staticmethod(), a second assignment to __all__ or __doc__ ...)."""
+    out = list(stmts)
+    if stmts and draw(st.integers(0, 2)) == 0:
+        for _ in range(draw(st.integers(1, 2))):
+            i = draw(st.integers(0, len(out) - 1))
+            out.insert(draw(st.integers(i + 1, len(out))), out[i])
+    return [line for stmt in out for line in stmt]
+
+
 @st.composite
 def modules(draw: Any, min_stmts: int = 1, max_stmts: int = 8) -> str:
     lines: List[str] = []
@@ -214,8 +245,8 @@ def modules(draw: Any, min_stmts: int = 1, max_stmts: int = 8) -> str:
         lines += _docstring(draw(st.sampled_from(DOCS)), draw(st.integers(0, 9)))
     for _ in range(draw(st.integers(0, 3))):
         lines.append(draw(st.sampled_from(IMPORTS)))
-    for _ in range(draw(st.integers(min_stmts, max_stmts))):
-        lines += draw(_stmt(0, 'module'))
+    stmts = [draw(_stmt(0, 'module')) for _ in range(draw(st.integers(min_stmts, max_stmts)))]
+    lines += _with_repeats(draw, stmts)
     return '\n'.join(lines) + '\n'
 
 
